@@ -71,6 +71,11 @@ theorem evenOddLe_eq_evenOdd {poly : List (α × α)} {pt : α × α} (hoff : Of
     simp only [Bool.true_and, decide_eq_decide]
     exact ⟨fun h => lt_of_le_of_ne h hne, le_of_lt⟩
 
+/-- in the property's own quantifier: polygon steps nothing-or-more-than-the-tolerance, point on no edge -/
+theorem inside_eq_evenOdd_of_sep {atol : α} {poly : List (α × α)} {pt : α × α} (hsep : Sep atol poly)
+    (hoff : OffEdges poly pt) : pointInside atol poly pt = evenOdd poly pt := by
+  rw [inside_eq_evenOddLe_of_sep pt hsep, evenOddLe_eq_evenOdd hoff]
+
 /-! ### ray-direction independence (closed polygon ⇒ an even number of straddling edges) -/
 
 /-- around the closed vertex cycle an even number of edges has exactly one end strictly below any horizontal line -/
